@@ -429,7 +429,7 @@ impl Scenario for C17Bridge {
                     // a frame line (a full 16-byte data chunk one time in three: the dominant shape on the
                     // wire) with one character hit: another hex digit (checksum or length no longer fit),
                     // or a character that is no hex digit at all
-                    let m = if cx.chance(1, 3) { Message::SendData(flipdot_core::Offset(16 * cx.draw(8) as u16), gens::data(cx.bytes(16))) } else { gens::raw_message(cx, &addrs) };
+                    let m = if cx.chance(1, 3) { Message::SendData(flipdot_core::Offset(16 * cx.draw(8) as u16), gens::data(gens::payload(cx, 16))) } else { gens::raw_message(cx, &addrs) };
                     let mut l = Frame::from(m).to_bytes_with_newline();
                     let body = l.len() - 2;
                     let p = 1 + cx.draw(body as u64 - 1) as usize;
